@@ -120,6 +120,7 @@ func NewMuxer(streamName string, config *MuxerConfig, observer IMuxerObserver) *
 func (m *Muxer) Start() {
 	Log.Infof("[%s] start hls muxer.", m.UniqueKey)
 	m.ensureDir()
+	m.continueMediaSequence()
 }
 
 func (m *Muxer) Dispose() {
@@ -446,6 +447,23 @@ func (m *Muxer) writePlaylist(isLast bool) {
 	if err := writeM3u8File(buf.Bytes(), m.playlistFilename, m.playlistFilenameBak); err != nil {
 		Log.Errorf("[%s] write live m3u8 file error. err=%+v", m.UniqueKey, err)
 	}
+}
+
+// continueMediaSequence
+//
+// 同名流重新推流时，上一次的直播m3u8可能还在（还没有被清理）。此时新的m3u8接着上一次的序号往后排，
+// 保证播放端看到的`EXT-X-MEDIA-SEQUENCE`不会变小 (RFC 8216 6.2.1)，新的TS文件也不会和上一次的TS文件重名
+func (m *Muxer) continueMediaSequence() {
+	content, err := fslCtx.ReadFile(m.playlistFilename)
+	if err != nil {
+		return
+	}
+	next, err := nextMediaSequenceInM3u8(content)
+	if err != nil {
+		Log.Warnf("[%s] parse previous live m3u8 failed. err=%+v", m.UniqueKey, err)
+		return
+	}
+	m.frag = next
 }
 
 // roundDuration 分片时长（秒）四舍五入到整数秒
